@@ -353,7 +353,7 @@ pub fn check_serialise(c: &SerialiseCase, info: &mut CaseInfo) -> Result<(), Str
 
 /// one-character values: every `stride`-th scalar of each type's alphabet plus all boundary ones
 fn serialise_sweep(cfg: &RunCfg) -> Vec<SerialiseCase> {
-	let stride: u32 = if cfg.tier == Tier::Thorough { 1 } else { 97 };
+	let stride: u32 = if cfg.tier == Tier::Thorough { 1 } else { 11 };
 	let mut vals: Vec<DnValueSpec> = Vec::new();
 	for kind in RESTRICTED {
 		let mut u = 0u32;
@@ -390,10 +390,10 @@ pub fn def() -> PropertyDef {
 		subs: vec![
 			sweep_sub("scalar-sweep", scalar_chunks, check_scalar_chunk),
 			sweep_sub("unit-sweep", unit_chunks, check_bytes_case),
-			prop_sub("bytes-random", 20_000, 1_000_000, random_bytes_case, check_bytes_case),
-			prop_sub("mixed", 20_000, 1_000_000, mixed_case, check_mixed),
+			prop_sub("bytes-random", 120_000, 1_000_000, random_bytes_case, check_bytes_case),
+			prop_sub("mixed", 120_000, 1_000_000, mixed_case, check_mixed),
 			sweep_sub("serialise-sweep", serialise_sweep, check_serialise),
-			prop_sub("serialise-random", 4_000, 200_000, serialise_random, check_serialise),
+			prop_sub("serialise-random", 24_000, 200_000, serialise_random, check_serialise),
 		],
 	}
 }
